@@ -249,7 +249,12 @@ pub fn random(run: &mut Runner, seed: u64, count: u64) {
             _ => *[1usize, 2, 3, 4, 5, 7, 8, 56, 57, 100].choose(&mut rng).unwrap(),
         };
         let target = (n_target * size).min(if ci % 40 == 0 { 81_000 } else { 3000 }).max(if valid { 56 } else { 1 });
-        let msg = message(&mut rng, &macs, target, valid);
+        let mut msg = message(&mut rng, &macs, target, valid);
+        // a valid message followed by one to four zero bytes (what a length rounded up to 32 bits would add):
+        // the concatenation of the payloads is then not a packet
+        if valid && ci % 9 == 4 {
+            msg.extend(std::iter::repeat(0u8).take(1 + (ci as usize / 9) % 4));
+        }
         let dev = *devs.choose(&mut rng).unwrap();
         let chip = rng.gen_range(0..4u8);
         let mut chunks = split_chunks(dev, chip, &msg, size);
@@ -262,9 +267,9 @@ pub fn random(run: &mut Runner, seed: u64, count: u64) {
             c.cseq = q;
         }
         let n = chunks.len();
-        let fault = *["none", "none", "drop", "dup", "board", "chip", "eom", "resize", "idgap", "swapids", "shiftids", "uneven", "longlast"]
-            .choose(&mut rng)
-            .unwrap();
+        // every kind in turn on even case numbers, drawn on odd ones
+        let kinds = ["none", "none", "drop", "dup", "board", "chip", "eom", "resize", "idgap", "swapids", "shiftids", "uneven", "longlast", "moveeom"];
+        let fault = if ci % 2 == 0 { kinds[(ci / 2) as usize % kinds.len()] } else { *kinds.choose(&mut rng).unwrap() };
         let i = rng.gen_range(0..n);
         match fault {
             "drop" => {
@@ -298,6 +303,14 @@ pub fn random(run: &mut Runner, seed: u64, count: u64) {
                             chunks[j + 1].payload = np;
                         }
                     }
+                }
+            }
+            "moveeom" => {
+                // the end-of-message flag moved from the last chunk to an earlier one (still exactly one flag)
+                if n >= 2 {
+                    let j = rng.gen_range(0..n - 1);
+                    chunks[n - 1].flags = 0;
+                    chunks[j].flags = 1;
                 }
             }
             "longlast" => {
